@@ -1951,6 +1951,9 @@ func (s *SelectStatement) GroupByOffset() (time.Duration, error) {
 			if len(call.Args) == 2 {
 				switch expr := call.Args[1].(type) {
 				case *DurationLiteral:
+					if interval == 0 {
+						return 0, errors.New("time dimension offset requires a non-zero interval")
+					}
 					return expr.Val % interval, nil
 				case *TimeLiteral:
 					return expr.Val.Sub(expr.Val.Truncate(interval)), nil
